@@ -16,6 +16,7 @@ From Coquelicot Require Import Coquelicot.
 From MM Require Import Base.Num Model.Sample Model.Quantile Model.Kde Spec.Kde Proofs.Kde Proofs.KdeBw Proofs.KdeGroups.
 From MM Require RealSpec.KdeR Proofs.KdeR RealSpec.Normal Proofs.KdeQR Proofs.KdeCap Spec.Quantile Proofs.Quantile.
 From Coq Require Import Qreals Psatz.
+From MM Require Check.C12 Proofs.CheckC12.
 Local Open Scope Q_scope.
 
 (* ====================================================================== *)
@@ -249,6 +250,31 @@ Theorem C12_bounds_checker :
      / wtotal (kpairs xs ws)).
 Proof. exact Proofs.KdeGroups.G_bounds_checker. Qed.
 Print Assumptions C12_bounds_checker.
+
+(* ====================================================================== *)
+(* A8. what a non-mismatch verdict of the correspondence check means        *)
+(* ====================================================================== *)
+(* for one observed point (x, PDF(x), CDF(x)): Epanechnikov kernel - both calls returned, the
+   Bandwidth field is as expected, PDF within 1e-9 * 0.75/h and CDF within 1e-9 of the exact
+   model (which is the distribution of C12_model_is_a_distribution); every kernel (Gaussian
+   included) - PDF >= 0 and 0 outside the boundaries, CDF in [0,1] with the exact end values,
+   CDF non-decreasing from the previous point, on the implementation's own outputs *)
+Theorem C12_ok_verdict_means : forall (k : kde) (hexp : xreal) (prev : option (Q * Q)) (p : Check.C12.pt)
+    (v cls : Z) (diag : list Z) (t : Z),
+  Check.C12.check_point k false hexp prev p = (v, cls, diag, t) -> v <> 2%Z ->
+  (k_kernel k = KEpan ->
+     Check.C12.p_pst p = 0%Z /\ Check.C12.p_cst p = 0%Z /\ xeq hexp (Check.C12.p_h p) = true /\
+     (forall e, kde_pdf k (Check.C12.p_x p) = Some e ->
+        xwithin (Check.C12.tol_pdf (k_h k)) e (Check.C12.p_pdf p) = true) /\
+     (forall e, kde_cdf k (Check.C12.p_x p) = Some e ->
+        xwithin Check.C12.tol_cdf e (Check.C12.p_cdf p) = true)) /\
+  (k_xs k <> [] ->
+     Check.C12.law_pdf (k_kernel k) (k_b k) (Check.C12.p_x p) (Check.C12.p_pdf p) = true /\
+     Check.C12.law_cdf (k_b k) (Check.C12.p_x p) (Check.C12.p_cdf p) = true /\
+     (forall x0 c0 c, prev = Some (x0, c0) -> Check.C12.p_cdf p = XFin c -> x0 <= Check.C12.p_x p ->
+        c0 <= c + Check.C12.slack)).
+Proof. exact Proofs.CheckC12.check_point_sound. Qed.
+Print Assumptions C12_ok_verdict_means.
 
 (* ====================================================================== *)
 (* B. over the reals (RealSpec/KdeR.v); grouped, one statement per topic    *)
